@@ -65,6 +65,9 @@ def fmtOut (hint : Bool) (size : Nat) : Out Nat → String
   | .flag b => fmtBool b
   | .pair a b => s!"{a}:{b}"
   | .elems l => fmtNatList l
+
+def fmtXOut (hint : Bool) (size : Nat) : XOut Nat → String
+  | .base o => fmtOut hint size o
   | .bools bs => String.join (bs.map fun b => if b then "1" else "0")
   | .sizes n e f m =>
     let fs := match f with | some b => fmtBool b | none => "-"
@@ -72,7 +75,7 @@ def fmtOut (hint : Bool) (size : Nat) : Out Nat → String
 
 def fmtSt (l : List Nat) : String := s!" n={l.length} d={fmtNatList l}"
 
-def parseOp (l : Line) : Option (Op Nat Nat × Bool) :=
+def parseBase (l : Line) : Option (Op Nat Nat × Bool) :=
   let het := (l.nat? "het").getD 0 == 1
   match l.op with
   | "insert" =>
@@ -93,16 +96,20 @@ def parseOp (l : Line) : Option (Op Nat Nat × Bool) :=
   | "extract" => some (.extract, false)
   | "replace" => (l.natList? "c").map fun c => (.replace c, false)
   | "riter" => some (.riter, false)
+  | op =>
+    match lkOf op, l.nat? "k" with
+    | some w, some k => some (if het then .hlookup w k else .lookup w k, false)
+    | _, _ => none
+
+def parseOp (l : Line) : Option (XOp Nat Nat × Bool) :=
+  match l.op with
   | "erase_if" =>
     match l.nat? "m", l.nat? "r" with
     | some m, some r => some (.eraseIf (fun v => v % m == r), false)
     | _, _ => none
   | "cmp" => some (.cmp, false)
   | "sizes" => some (.sizes, false)
-  | op =>
-    match lkOf op, l.nat? "k" with
-    | some w, some k => some (if het then .hlookup w k else .lookup w k, false)
-    | _, _ => none
+  | _ => (parseBase l).map fun (op, hint) => (.base op, hint)
 
 def step (st : DState) (l : Line) : DState × String :=
   let bad := (st, "bad-op\tbad-op")
@@ -139,21 +146,21 @@ def step (st : DState) (l : Line) : DState × String :=
         match lv.model with
         | .error e => (.error e, e.fmt)
         | .ok x =>
-          let r : Except Err (St Nat × Out Nat) :=
+          let r : Except Err (St Nat × XOut Nat) :=
             if lv.ipv then
               match op with
-              | .clear => do .ok ({ x with cur := (← fvClear lv.cap x.cur) }, .unit)
-              | .extract => do
+              | .base .clear => do .ok ({ x with cur := (← fvClear lv.cap x.cur) }, .base .unit)
+              | .base .extract => do
                 let (l', c) ← fvExtract lv.cap x.cur
-                .ok ({ x with cur := l' }, .elems c)
-              | .lookup .. | .hlookup .. | .cmp | .sizes => C09.step .fs lv.lt (hetOf lv.lt) elemNat lv.cap x op
+                .ok ({ x with cur := l' }, .base (.elems c))
+              | .base (.lookup ..) | .base (.hlookup ..) | .cmp | .sizes => C09.xstep .fs lv.lt (hetOf lv.lt) elemNat lv.cap x op
               | _ => .error (.pre "flat_set over inplace_vector: the member does not compile")
-            else C09.step lv.kind lv.lt (hetOf lv.lt) elemNat lv.cap x op
+            else C09.xstep lv.kind lv.lt (hetOf lv.lt) elemNat lv.cap x op
           match r with
-          | .ok (x', o) => (.ok x', fmtOut hint x'.cur.length o ++ fmtSt x'.cur)
+          | .ok (x', o) => (.ok x', fmtXOut hint x'.cur.length o ++ fmtSt x'.cur)
           | .error e => (.error e, e.fmt)
-      let (s', o) := Spec.step isSet lv.lt (hetOf lv.lt) elemNat lv.cap lv.spec op
-      (some { lv with model := m', spec := s' }, ms ++ "\t" ++ fmtOut hint s'.cur.length o ++ fmtSt s'.cur)
+      let (s', o) := Spec.xstep isSet lv.lt (hetOf lv.lt) elemNat lv.cap lv.spec op
+      (some { lv with model := m', spec := s' }, ms ++ "\t" ++ fmtXOut hint s'.cur.length o ++ fmtSt s'.cur)
     | _, _ => bad
 
 end Tetl.C09.Driver
